@@ -56,6 +56,11 @@ def build_model(shape_edges, nprov, seed):
                     if k == "var" and ((acc is None and m["default"] == "public") or (acc == "public" and how == "attr")) and rng.random() < 0.5:
                         ent["protected"] = True
                     m["entities"].append(ent)
+                    if k == "generic" and rng.random() < 0.4:
+                        # the generic's specific is declared by an interface body: an entity of the module in its own right, whose accessibility
+                        # is the module default whatever an access statement says about the generic name
+                        ent["bodies"] = f"gb_{ename.lower()}"
+                        m["entities"].append({"name": ent["bodies"], "kind": "sub", "access": None, "how": None, "module": name, "via_body": True})
         mods.append(m)
     for (i, j) in sorted(shape_edges):
         mods[j]["uses"].append({"target": i})
@@ -226,10 +231,14 @@ def render_entity(e, m, lines, contains, stmts):
         lines += [f"type{a} :: {n}", "integer :: f", f"end type {n}"]
     elif k == "var":
         lines += [f"integer{a}{', protected' if e.get('protected') else ''} :: {n} = 0"]
+    elif k == "sub" and e.get("via_body"):
+        pass  # declared by the interface body of a generic interface (see there)
     elif k == "sub":
         contains += [f"subroutine {n}()", f"end subroutine {n}"]
     elif k == "func":
         contains += [f"integer function {n}(i)", "integer, intent(in) :: i", f"{n} = i", f"end function {n}"]
+    elif k == "generic" and e.get("bodies"):
+        lines += [f"interface {n}", f"subroutine {e['bodies']}(i)", "integer, intent(in) :: i", f"end subroutine {e['bodies']}", "end interface"]
     elif k == "generic":
         sp = f"spec_{n}"
         lines += [f"interface {n}", f"module procedure {sp}", "end interface"]
@@ -281,7 +290,7 @@ def render_project(mods, rng, probe_where):
     for m in mods:
         lines, contains, stmts = [], [], []
         L = [f"module {m['name']}"]
-        if not (m["consumer"] and probe_where in ("procedure_use", "nested_use", "generic_body_use")):
+        if not (m["consumer"] and probe_where in ("procedure_use", "nested_use", "generic_body_use", "block_use")):
             for u in m["uses"]:
                 L += render_use(u, mods)
         L.append("implicit none")
@@ -317,9 +326,16 @@ def render_project(mods, rng, probe_where):
             if probe_where in ("procedure_use", "nested_use"):
                 for u in m["uses"]:
                     contains += render_use(u, mods)
+            if probe_where == "block_use":
+                # the USE statements stand in a BLOCK construct of the probing procedure; the references are made inside the block
+                contains.append("block")
+                for u in m["uses"]:
+                    contains += render_use(u, mods)
             nlvars = []
             for i, n in enumerate(names):
                 k = cands[n]
+                if probe_where == "block_use":
+                    continue  # (declarations inside a BLOCK are not documented: only references are probed there)
                 if k in ("type", "ctor"):
                     contains.append(f"type({cm(n)}) :: pt{i}")
                 elif k == "absint":
@@ -336,6 +352,8 @@ def render_project(mods, rng, probe_where):
                     contains.append(f"call {cm(n)}(1)")
                 elif k in ("func", "ctor"):
                     contains.append(f"print *, {cm(n)}(1)")
+            if probe_where == "block_use":
+                contains.append("end block")
             contains += [f"end subroutine probe_{m['name']}"]
             if probe_where == "nested_use":
                 contains += [f"end subroutine outer_{m['name']}"]
@@ -452,6 +470,8 @@ def case(arg):
     for i, n in enumerate(names):
         k = cands[n]
         exp = expected_id(n)
+        if probe_where == "block_use" and k not in ("sub", "func", "generic"):
+            continue  # (only references are probed inside a BLOCK)
         if probe_where == "generic_body_use":
             if k not in ("type", "ctor", "absint"):
                 continue  # (an interface body holds declarations only)
@@ -805,7 +825,7 @@ def main():
                 if not thorough:
                     perms = rng.sample(perms, min(len(perms), 2 if nprov == 3 else 3))
                 for order in perms:
-                    args.append((sid, frozenset(edges), nprov, seed, rng.choice(["module_use", "module_use", "procedure_use", "nested_use", "generic_body_use"]), order))
+                    args.append((sid, frozenset(edges), nprov, seed, rng.choice(["module_use", "module_use", "procedure_use", "nested_use", "generic_body_use", "block_use"]), order))
     results = core.fork_map(case, args, per_case_fork=False, case_timeout=300, total_timeout=3400)
     shapes_seen = set()
     for a, (st, r) in zip(args, results):
